@@ -93,13 +93,16 @@ def execute(scn, keep_log=False, hook=None):
         mode = 'mpg' if length <= 60 else 'fd_bam'
         duration = 0 if mode == 'mpg' else ((length + 59) // 60 + 2) * bam_iv
     invocations = []     # (t, k, lamps, dtcs)
+    kept = []            # (receiver, the lamp dict and code list handed to the subscriber, copies taken at that moment)
     sub_calls = {}       # receiver -> list of (t, sa, lamps, dtcs)
     dm1_tx = j.Dm1(ca)
     receivers = [s for s in w.stacks.values() if s.name != 'T']
     for r in receivers:
         d = j.Dm1(r.cas[0])
         sub_calls[r.name] = []
-        listener = (lambda sa, lamps, dtcs, ts, name=r.name: sub_calls[name].append((sim.now, sa, dict(lamps), [dict(x) for x in dtcs])))
+        def listener(sa, lamps, dtcs, ts, name=r.name):
+            sub_calls[name].append((sim.now, sa, dict(lamps), [dict(x) for x in dtcs]))
+            kept.append((name, lamps, dtcs, dict(lamps), [dict(x) for x in dtcs]))      # a subscriber that keeps what it was given
         if scn.get('resubscribe'):
             # a listener that was registered, removed and registered again before any traffic is a subscriber like any other
             d.subscribe(listener)
@@ -294,6 +297,13 @@ def execute(scn, keep_log=False, hook=None):
                          'msg': '%s received %d of %d DM1 messages (%d trouble codes, %s)' % (r.name, matched, len(finished), n, mode)})
         if not viol and not must_all and invocations and matched == 0 and finished:
             viol.append({'clause': 'dm1-not-received', 'rank': 2, 'feat': {'mode': mode}, 'msg': '%s received none of the DM1 messages (%d trouble codes, %s)' % (r.name, n, mode)})
+    # ---- what a subscriber was given for one cycle is not rewritten by later cycles
+    for (name, lamps, dtcs, lamps0, dtcs0) in kept:
+        if dict(lamps) != lamps0 or [dict(x) for x in dtcs] != dtcs0:
+            viol.append({'clause': 'dm1-received-objects-rewritten', 'rank': 2,
+                         'msg': 'the lamp dict / trouble code list %s received for one DM1 was changed by the library afterwards (now %d codes, first %s; was %d codes, first %s)' % (
+                             name, len(dtcs), dict(dtcs[0]) if dtcs else None, len(dtcs0), dtcs0[0] if dtcs0 else None)})
+            break
     # ---- raw payload on the receiving stack, decoded independently (bit positions of J1939-73)
     raw = [d for d in w.deliveries if d['stack'] == 'R0' and d['l'] == 'ecu0' and d['pgn'] == 0xFECA and d['sa'] != T2_ADDR]
     pos = 0
